@@ -223,10 +223,25 @@ func (c *Check) signalFrameRemoval() {
 	}
 	n := 0
 	var blocks []*ssa.BasicBlock
-	for _, g := range withHelpers(f, 2) {
+	inScope := map[*ssa.Function]bool{}
+	for _, g := range withHelpers(f, 3) {
 		if g == f || g.Parent() != nil || !strings.HasPrefix(g.Name(), "parse") && g.Name() != "cleanupDuplicateLocations" && g.Name() != "ParseMemoryMap" {
 			blocks = append(blocks, g.Blocks...)
+			inScope[g] = true
 		}
+	}
+	// addrGuarded: block b is entered only on the taken branch of an equality test on a frame address
+	addrGuarded := func(b *ssa.BasicBlock) bool {
+		for d, child := b.Idom(), b; d != nil; child, d = d, d.Idom() {
+			iff, ok := d.Instrs[len(d.Instrs)-1].(*ssa.If)
+			if !ok || d.Succs[0] != child || len(child.Preds) != 1 {
+				continue
+			}
+			if cmp, ok := iff.Cond.(*ssa.BinOp); ok && cmp.Op == token.EQL && (isFieldLoad(cmp.X, "profile.Location", "Address") || isFieldLoad(cmp.Y, "profile.Location", "Address")) {
+				return true
+			}
+		}
+		return false
 	}
 	for _, b := range blocks {
 		for _, ins := range b.Instrs {
@@ -245,14 +260,24 @@ func (c *Check) signalFrameRemoval() {
 				continue
 			}
 			n++
-			guarded := false
-			for d, child := b.Idom(), b; d != nil; child, d = d, d.Idom() {
-				iff, ok := d.Instrs[len(d.Instrs)-1].(*ssa.If)
-				if !ok || d.Succs[0] != child || len(child.Preds) != 1 {
-					continue
-				}
-				if cmp, ok := iff.Cond.(*ssa.BinOp); ok && cmp.Op == token.EQL && (isFieldLoad(cmp.X, "profile.Location", "Address") || isFieldLoad(cmp.Y, "profile.Location", "Address")) {
-					guarded = true
+			guarded := addrGuarded(b)
+			if !guarded {
+				// the removal itself is a helper working on the sample it is given: the test is
+				// made by its callers (those that belong to the signal-frame logic)
+				if par, isPar := fa.X.(*ssa.Parameter); isPar {
+					calls, asValue := directCallSites(p, par.Parent())
+					nIn := 0
+					all := !asValue
+					for _, call := range calls {
+						if !inScope[call.Parent()] {
+							continue
+						}
+						nIn++
+						if !addrGuarded(call.Block()) {
+							all = false
+						}
+					}
+					guarded = all && nIn > 0
 				}
 			}
 			if guarded {
